@@ -7,7 +7,7 @@ K: the raw encoder run observed on C (`encraw`: chunk list + result of der_encod
 P: the property predicate evaluated directly on C's outputs (python oracle below), valid values and
    invalid structures (constraint violations at every position, NULL mandatory pointers, CHOICE present 0 / bad,
    partially initialised members)."""
-import re, json, collections, subprocess
+import re, json, collections, subprocess, os
 from .. import build, core, genmod, bundle, gfind
 from . import c01
 
@@ -169,17 +169,20 @@ def parse_kv(o):
 
 
 class Case:
-    __slots__ = ("tn", "syn", "sx", "kind", "raw", "clean", "new", "buf", "cb", "lines", "valid", "feats", "must")
+    __slots__ = ("tn", "syn", "sx", "kind", "raw", "clean", "new", "buf", "cb", "rawk", "lines", "valid", "feats", "must")
     def __init__(self, tn, syn, sx, kind, valid, feats, must=False):
         self.tn, self.syn, self.sx, self.kind, self.valid, self.feats, self.must = tn, syn, sx, kind, valid, feats, must
         self.raw = self.clean = self.new = None
-        self.buf = {}; self.cb = {}; self.lines = {}
+        self.buf = {}; self.cb = {}; self.rawk = {}; self.lines = {}
 
+
+# leaks on encoder failure paths are C14's subject (F21); here they would only hide the API verdicts
+C_ENV = {"ASAN_OPTIONS": "detect_leaks=0:abort_on_error=0:allocator_may_return_null=1"}
 
 def run_safe(ctx, exe, lines, timeout):
     """run_c_bisect with a wall-clock limit: a batch that hangs is bisected down to `HANG` lines"""
     try:
-        outs, _ = ctx.run_c_bisect(exe, lines, timeout=timeout)
+        outs, _ = ctx.run_c_bisect(exe, lines, timeout=timeout, env=C_ENV)
         return outs
     except subprocess.TimeoutExpired:
         if len(lines) == 1: return ["HANG (no answer within %ds)" % timeout]
@@ -347,7 +350,10 @@ def correspond(ctx, st, m, txt, opts, cases):
         if c.clean is not None: mlines.append(f"c07.cb {c.syn} -1 {tok}"); meta.append((c, "clean", c.clean))
         if c.new is not None: mlines.append(f"c07.tonew {c.syn} {tok}"); meta.append((c, "new", c.new))
         for n, o in c.buf.items(): mlines.append(f"c07.tobuf {c.syn} {n} {tok}"); meta.append((c, ("buf", n), o))
-        for k, o in c.cb.items(): mlines.append(f"c07.cb {c.syn} {k} {tok}"); meta.append((c, ("cb", k), o))
+        for k, o in c.cb.items():
+            rk = c.rawk.get(k)
+            if rk is None or rk.startswith(("CRASH", "HANG")): continue     # the raw encoder itself dies: P leg
+            mlines.append(f"c07.cb {c.syn} {k} {run_token(rk)}"); meta.append((c, ("cb", k), o))
     if not mlines: return
     if not getattr(ctx, "driver_ok", True):
         ctx.broken.append({"kind": "correspondence", "name": "application", "msg": "Lean driver does not build"}); return
@@ -397,7 +403,7 @@ def process_module(ctx, st, m, items, opts=("-no-gen-example", "-fcompound-names
         # phase 1: raw run, clean callback run, new buffer
         lines = []
         for c in cases:
-            c.lines["raw"] = f"@{c.tn} encraw {c.syn} {c.sx}"
+            c.lines["raw"] = f"@{c.tn} encraw {c.syn} -1 {c.sx}"
             c.lines["clean"] = f"@{c.tn} enccb {c.syn} -1 {c.sx}"
             c.lines["new"] = f"@{c.tn} encnew {c.syn} {c.sx}"
             lines += [c.lines["raw"], c.lines["clean"], c.lines["new"]]
@@ -422,9 +428,10 @@ def process_module(ctx, st, m, items, opts=("-no-gen-example", "-fcompound-names
                 c.lines[("buf", n)] = f"@{c.tn} encbuf {c.syn} {n} {c.sx}"; lines.append(c.lines[("buf", n)]); where.append((c, "buf", n))
             for k in ks:
                 c.lines[("cb", k)] = f"@{c.tn} enccb {c.syn} {k} {c.sx}"; lines.append(c.lines[("cb", k)]); where.append((c, "cb", k))
+                c.lines[("rawk", k)] = f"@{c.tn} encraw {c.syn} {k} {c.sx}"; lines.append(c.lines[("rawk", k)]); where.append((c, "rawk", k))
         outs = run_safe(ctx, exe, lines, 600)
         for (c, what, x), o in zip(where, outs):
-            (c.buf if what == "buf" else c.cb)[x] = o
+            {"buf": c.buf, "cb": c.cb, "rawk": c.rawk}[what][x] = o
         st.n_lines += 3 * len(cases) + len(lines)
         evaluate(ctx, st, m, txt, opts, cases)
         correspond(ctx, st, m, txt, opts, cases)
@@ -510,8 +517,8 @@ def inv_module_cases():
 
 
 def report(ctx, st):
-    for cls, (n, sample) in list(st.fail.items())[:200]:
-        pass
+    if os.environ.get("C07_DUMP"):
+        json.dump({"fail": {k: v for k, v in st.fail.items()}, "kdis": st.kdis[:50]}, open(os.environ["C07_DUMP"], "w"), indent=1)
     shown = 0
     for cls, (n, sample) in st.fail.items():
         if shown >= 6:
@@ -551,7 +558,7 @@ def run(ctx):
     st = Stats(); st.skipped = collections.Counter()
     gfind.replay_witnesses(ctx, driver_sources=DS)
     rng = ctx.rng
-    nb = 5 if ctx.quick else 40
+    nb = int(os.environ.get("C07_NB", 5 if ctx.quick else 40))
     nvals = 5 if ctx.quick else 16
     built = 0
     # ---- (a)(b)(c) valid values: boundary module + generated modules; (d) planted defects in the same modules
